@@ -3,7 +3,9 @@ package main
 // Models of package time (one symbolic clock) and package context.
 
 import (
+	"fmt"
 	"go/types"
+	"os"
 )
 
 func (e *Exec) clockRead() *Term {
@@ -174,6 +176,12 @@ func (e *Exec) fireTimer() bool {
 		k = e.choose("timer", len(armed), conds, true)
 	}
 	c := armed[k]
+	if os.Getenv("GOSMT_DEBUG") != "" {
+		fmt.Fprintf(os.Stderr, "  timer fires (ctx %d of %d armed); threads:\n", c.id, len(armed))
+		for _, t := range e.threads {
+			fmt.Fprintf(os.Stderr, "    thread %d %s state=%d blockedOn=%s top=%s\n", t.id, t.name, t.state, t.blockedOn, e.siteOf(t))
+		}
+	}
 	e.trace = append(e.trace, "T:timer-fired")
 	later := BVCmp("bvslt", e.now, c.deadline)
 	e.now = Ite(later, c.deadline, e.now)
